@@ -1,6 +1,8 @@
 package main
 
 import (
+	"go/parser"
+	"go/token"
 	"bufio"
 	"bytes"
 	"context"
@@ -652,6 +654,10 @@ func (t *tools) runBatchX(progs []*Program, opts batchOpts, reducing bool) (*bat
 			res.outU += string(u)
 		}
 	}
+	if f := sideEffectImportsKept(b); f != nil {
+		res.fail = f
+		return res, b
+	}
 	if f := t.buildPkgs(b); f != nil {
 		res.fail = f
 		return res, b
@@ -700,4 +706,50 @@ func sortedKeys[V any](m map[string]V) []string {
 	}
 	sort.Strings(ks)
 	return ks
+}
+
+// sideEffectImportsKept: a static oracle that needs no execution. In the runner every variant is linked into ONE binary, so
+// a side-effect import (_ "image/png") that the compiler drops from the generated file is still linked in through the source
+// package and its init still runs: the loss cannot be observed by running. The generated file must therefore import exactly
+// the side-effect packages its source file imports (C13 "side-effect imports", C07 "import clean-up never removes an import
+// the file still needs"). The failure is reported like a build failure of the output (stage build-o) and isolated by bisection.
+func sideEffectImportsKept(b *batch) *stageFailure {
+	blanks := func(path string) (map[string]bool, bool) {
+		src, err := os.ReadFile(path)
+		if err != nil {
+			return nil, false
+		}
+		f, err := parser.ParseFile(token.NewFileSet(), path, src, parser.ImportsOnly)
+		if err != nil {
+			return nil, false
+		}
+		m := map[string]bool{}
+		for _, im := range f.Imports {
+			if im.Name != nil && im.Name.Name == "_" {
+				m[im.Path.Value] = true
+			}
+		}
+		return m, true
+	}
+	for _, fn := range []string{"p.go", "q.go", "r.go", "t.go", "p_test.go", "zgv.go"} {
+		want, ok := blanks(filepath.Join(b.dir, "s", fn))
+		if !ok {
+			continue
+		}
+		got, ok := blanks(filepath.Join(b.dir, "o", fn))
+		if !ok {
+			continue
+		}
+		for _, path := range sortedKeys(want) {
+			if !got[path] {
+				return &stageFailure{Stage: "build-o", Diag: fmt.Sprintf("o/%s: side-effect import _ %s of the source file is missing in the generated file (its init functions no longer run)", fn, path)}
+			}
+		}
+		for _, path := range sortedKeys(got) {
+			if !want[path] {
+				return &stageFailure{Stage: "build-o", Diag: fmt.Sprintf("o/%s: the generated file imports _ %s for its side effects, the source file does not", fn, path)}
+			}
+		}
+	}
+	return nil
 }
